@@ -121,7 +121,8 @@ Definition predict (g : gmodel) (X : qmat) (gt : gtin) (l : labels) : option bvo
 
 (** ** statistics *)
 Definition qlen (l : list Q) : Q := inject_Z (Z.of_nat (length l)).
-Definition qmean (l : list Q) : Q := sumQ l / qlen l.
+(** ([Qred] only normalises the fraction: it keeps the exact value and the shards fast) *)
+Definition qmean (l : list Q) : Q := Qred (sumQ l / qlen l).
 Definition sqdev (m : Q) (l : list Q) : Q := sumQ (map (fun x => (x - m) * (x - m)) l).
 (** numpy var(): mean of squared deviations from the mean (population variance) *)
 Definition popvar (l : list Q) : Q := sqdev (qmean l) l / qlen l.
